@@ -210,11 +210,15 @@ C06_EntitledNeverFails(x) ==
 \* C08
 C08_MintOnlyInBlocks(x) == IsTx(x) => Minted(x) = 0
 C08_MintBound_app(x) == Kind(x) = "Blocks"
+\* (the cap of one block: the subsidy at the age the step STARTS with - ages only grow, subsidies only shrink)
+AgeOf(cfg, s) == IF cfg.rewardAge >= 256 THEN 256
+                 ELSE IF cfg.toNextAge > 0 /\ s.pool.reward >= cfg.toNextAge THEN cfg.rewardAge + 1 ELSE cfg.rewardAge
+SubsidyOf(cfg, s) == IF AgeOf(cfg, s) >= 31 THEN 0 ELSE cfg.blockReward \div (2 ^ AgeOf(cfg, s))
 RewardCap(cfg, s) ==
     IF s.pool.pledged = 0 THEN 0
     ELSE IF s.pool.pledged < cfg.baseline
-         THEN Min2(cfg.blockReward, (s.pool.pledged * cfg.apyNum) \div (cfg.apyDen * (cfg.halvingPeriod \div 2)))
-         ELSE cfg.blockReward
+         THEN Min2(SubsidyOf(cfg, s), (s.pool.pledged * cfg.apyNum) \div (cfg.apyDen * (cfg.halvingPeriod \div 2)))
+         ELSE SubsidyOf(cfg, s)
 C08_MintBound(x, cfg) ==
     /\ Minted(x) >= 0
     /\ Minted(x) <= x.out.blocks * RewardCap(cfg, x.pre)
@@ -295,6 +299,11 @@ C10_PayerConsent(x) ==
         ELSE /\ HasPay(x.pre, x.ev.owner) /\ a = PayOf(x.pre, x.ev.owner)
              /\ \/ (x.ev.provider = x.ev.gw /\ ActsFor(x.pre, x.ev.creator, x.ev.gw))
                 \/ Has(x.pre.bindings, "acc", x.ev.creator) /\ Get(x.pre.bindings, "acc", x.ev.creator).did = x.ev.owner
+
+\* a renewal is charged to the DID that signed it (the model's owner), never to a grantee who happened to make the last update
+C10_RenewPayerIsSigner_app(x) == Ok(x) /\ Kind(x) = "Renew"
+C10_RenewPayerIsSigner(x) ==
+    \A a \in ClientAccs(x.pre) : Delta(x, a) < 0 => HasPay(x.pre, x.ev.owner) /\ a = PayOf(x.pre, x.ev.owner)
 
 \* C11: stored shards stay until their paid end unless an authorised request removes them
 ShardKept(x, sh) ==
